@@ -140,7 +140,7 @@ def check_scenario(prop, ops, preds, cut_at, sobs, res, meta, sid, reg_cache=Non
             # beyond the statements' territory: only the model-independent severity rule still applies
             # (fatal from calls, non-fatal from destroying operations)
             for ri, (tag, sev, f, line, msg) in enumerate(oobs[i].reports):
-                want = 'F' if op[0] in ('call', 'callx') and ri not in oobs[i].destr else 'N'
+                want = 'F' if op[0] in ('call', 'callx', 'callu') and ri not in oobs[i].destr else 'N'
                 if sev != want:
                     mm = oracle.Mismatch('report.severity', {'after_cut'}, '%s report during %s (after the history left the modelled territory): %r' % (sev, op[0], msg[:100]), 'after-cut')
                     if prop in oracle.owners(mm):
@@ -153,7 +153,7 @@ def check_scenario(prop, ops, preds, cut_at, sobs, res, meta, sid, reg_cache=Non
         for (tag, sev, f, line, msg) in ob.reports:
             k = oracle.classify(msg)
             res.reports_seen[k] = res.reports_seen.get(k, 0) + 1
-        mms = oracle.compare(pr, ob, reg, op[0] in ('call', 'callx'))
+        mms = oracle.compare(pr, ob, reg, op[0] in ('call', 'callx', 'callu'))
         for mm in mms:
             ow = oracle.owners(mm)
             if prop in ow or '*' in ow:
@@ -257,7 +257,7 @@ def tally(res, ops, preds, cut_at, h):
         res.ops_by_kind[op[0]] = res.ops_by_kind.get(op[0], 0) + 1
         if cut_at is None or i <= cut_at:
             trig |= pr.trig
-            if op[0] in ('call', 'callx'):
+            if op[0] in ('call', 'callx', 'callu'):
                 k = 'accepted' if pr.accepted else (pr.reports[0]['kind'] if pr.reports else 'other')
                 res.calls[k] = res.calls.get(k, 0) + 1
     for t in trig:
@@ -386,7 +386,7 @@ def legal(meta, ops, upto=None, two_monitors=False):
                     return None
                 live_sites.add(op[2])
                 owner[op[1]] = ('site', op[2])
-            elif k in ('rmexp', 'rmexpx'):
+            elif k in ('rmexp', 'rmexpx', 'rmexpc'):
                 if op[1] not in m.exps:
                     return None
                 key = owner.pop(op[1], None)
@@ -408,7 +408,7 @@ def legal(meta, ops, upto=None, two_monitors=False):
             elif k in ('asobj', 'asmv'):
                 if op[1] not in m.objs or op[2] not in m.objs or m.objs[op[1]].kind != 'P' or m.objs[op[2]].kind != 'P':
                     return None
-            elif k in ('rmobj', 'rmobjx'):
+            elif k in ('rmobj', 'rmobjx', 'rmobjc'):
                 if op[1] not in m.objs:
                     return None
                 for e in m.exps.values():
@@ -426,7 +426,7 @@ def legal(meta, ops, upto=None, two_monitors=False):
             elif k == 'asseq':
                 if (op[1] not in m.seqs and op[1] not in m.husks) or op[2] not in m.seqs or op[1] == op[2]:
                     return None
-            elif k in ('call', 'callx'):
+            elif k in ('call', 'callx', 'callu'):
                 if op[1] not in m.objs:
                     return None
                 ob = m.objs[op[1]]
@@ -476,7 +476,7 @@ def legal(meta, ops, upto=None, two_monitors=False):
             # expectations that came or went inside a call (deferred operations of side effects)
             reserved &= {d[1] for d in m.deferred.values() if d[0] == 'exp'}
             for eid in list(owner):
-                if eid not in m.exps and eid not in reserved and preds[-1].op[0] in ('call', 'callx'):
+                if eid not in m.exps and eid not in reserved and preds[-1].op[0] in ('call', 'callx', 'callu'):
                     key = owner.pop(eid)
                     if key and key[0] == 'site':
                         live_sites.discard(key[1])
